@@ -1,8 +1,11 @@
 """C14 — calling an interface follows the PEP 246 adaptation order (DESIGN.md section 5, C14)."""
 import itertools
 import json
+import os
 
 from .. import common as C
+from ..translate import adapt_py as TRPY
+from ..translate import adapt_c as TRC
 
 ID = "C14"
 COQ_TARGETS = ["Tie/C14.vo", "Properties/C14.vo"]
@@ -13,7 +16,8 @@ SHARD = 500
 THEOREMS = [
     "C14_call_follows_precedence", "C14_c_call_follows_precedence", "C14_lazy", "C14_lazy_hooks",
     "C14_lazy_provided", "C14_steps_run_once", "C14_exceptions_propagate", "C14_no_other_exceptions",
-    "C14_custom_adapt_replaces", "C14_c_call_eq_py_call", "C14_hook_equals_queryAdapter",
+    "C14_custom_adapt_replaces", "C14_providedBy_override_replaces", "C14_c_call_eq_py_call",
+    "C14_hook_equals_queryAdapter", "C14_generated_py_eq_model", "C14_generated_c_eq_model",
 ]
 RULE = ("exhaustive product of __conform__ behaviour (11) x provided (2) x alternate (absent, None, object) x "
         "custom __adapt__ (absent, None, value, raises, delegates to super) x every hook list up to length 3 "
@@ -31,6 +35,32 @@ ASSUMPTIONS = ["hooks, __conform__ and custom __adapt__ do not mutate adapter_ho
                "during the call (the C loop reads the list length once)",
                "values returned by hooks/__conform__/__adapt__ are distinct objects, distinct from obj and the alternate",
                "interface chains are single-inheritance (one metaclass line), built with class statements"]
+
+INTERFACE_PY = os.path.join(C.REPO, "src", "zope", "interface", "interface.py")
+COPT_C = os.path.join(C.REPO, "src", "zope", "interface", "_zope_interface_coptimizations.c")
+GEN_PY = os.path.join(C.COQ, "Gen", "AdaptPy.v")
+GEN_C = os.path.join(C.COQ, "Gen", "AdaptC.v")
+
+
+def regenerate(run):
+    """Re-translate the Python kernels (interface.py) and re-extract the C kernels
+    (_zope_interface_coptimizations.c) into coq/Gen (fail closed: a refusal is reported and the
+    pinned text is used so that the rest of the pipeline still runs)."""
+    errors = []
+    try:
+        C.write_if_changed(GEN_PY, TRPY.translate_file(INTERFACE_PY))
+    except Exception as e:  # noqa
+        C.write_if_changed(GEN_PY, TRPY.pinned())
+        errors.append("harness/translate/adapt_py.py refused %s (%s: %s); coq/Gen/AdaptPy.v holds the pinned kernels, so "
+                      "C14_generated_py_eq_model is NOT about the current source" % (INTERFACE_PY, type(e).__name__, e))
+    try:
+        C.write_if_changed(GEN_C, TRC.extract_file(COPT_C))
+    except Exception as e:  # noqa
+        C.write_if_changed(GEN_C, TRC.pinned())
+        errors.append("harness/translate/adapt_c.py refused %s (%s: %s); coq/Gen/AdaptC.v holds the pinned kernels, so "
+                      "C14_generated_c_eq_model is NOT about the current source" % (COPT_C, type(e).__name__, e))
+    return errors
+
 
 CONFORMS = [["absent"], ["getraise", "attr", 100], ["getraise", "other", 100], ["getraise", "type", 100],
             ["getnone"], ["retnone"], ["retvalue", 50], ["raise", "other", 100], ["raise", "type", 100],
